@@ -58,14 +58,34 @@ func c12JSONClient(r *Run) {
 	}
 	if fn := r.Fn(c12Post); fn != nil {
 		want := wantRspError(fn, do+".StatusCode", "io.ReadAll(*)#0 || phi(io.ReadAll(*)#0|nil)")
-		r.FailEdge(fn, "PostAndParse", EdgeSpec{Name: "json-error", Atom: nilAtom("json.Unmarshal(*)"), Bad: "non", Want: want})
+		// the step(s) that decode the body: json.Unmarshal itself, or module helpers built on it
+		// (c13DecodeSteps, rules_t7c13retry.go); one plain json.Unmarshal is judged as before
+		steps := c13DecodeSteps(fn)
+		plain := len(steps) == 1 && CalleeOf(steps[0]) == "json.Unmarshal"
+		if plain || len(steps) == 0 {
+			r.FailEdge(fn, "PostAndParse", EdgeSpec{Name: "json-error", Atom: nilAtom("json.Unmarshal(*)"), Bad: "non", Want: want})
+		} else {
+			for _, st := range steps {
+				if ev, _ := c13StepErr(r, st); ev != nil {
+					r.FailEdge(fn, "PostAndParse", EdgeSpec{Name: "json-error", Atom: RuleAtom{Pat: "nil?" + r.D.D(ev)}, Bad: "non", Want: want})
+				} else {
+					r.Fail("PostAndParse:json-error", r.Where(st), "the error of "+CalleeOf(st)+" is discarded")
+				}
+			}
+		}
 		// an error while a response is in hand (body read error) carries that response
-		r.EdgeAll(fn, "PostAndParse:error-with-response", []AtomSet{{nilAtom("phi(*ctxhttp.Do(*)#1*)"), "non"}, {nilAtom("ctxhttp.Do(*)#0"), "non"}}, want, asInstrs(CallsTo(fn, "json.Unmarshal")))
-		r.EdgeAll(fn, "PostAndParse:error-without-response", []AtomSet{{nilAtom("phi(*ctxhttp.Do(*)#1*)"), "non"}, {nilAtom("ctxhttp.Do(*)#0"), "nil"}}, wantErr(true), asInstrs(CallsTo(fn, "json.Unmarshal")))
+		r.EdgeAll(fn, "PostAndParse:error-with-response", []AtomSet{{nilAtom("phi(*ctxhttp.Do(*)#1*)"), "non"}, {nilAtom("ctxhttp.Do(*)#0"), "non"}}, want, asInstrs(steps))
+		r.EdgeAll(fn, "PostAndParse:error-without-response", []AtomSet{{nilAtom("phi(*ctxhttp.Do(*)#1*)"), "non"}, {nilAtom("ctxhttp.Do(*)#0"), "nil"}}, wantErr(true), asInstrs(steps))
 		c12SuccessShape(r, fn, "PostAndParse", do, "io.ReadAll(*)#0 || phi(io.ReadAll(*)#0|nil)")
-		if c := r.OneCall(fn, "PostAndParse:decode", "json.Unmarshal"); c != nil {
-			r.ExpectArg(c, "PostAndParse:decode.source", 0, "io.ReadAll(*)#0 || phi(io.ReadAll(*)#0|nil)")
-			c12TargetIs(r, fn, c, "PostAndParse:decode.target", 1, "p4")
+		if plain || len(steps) == 0 {
+			if c := r.OneCall(fn, "PostAndParse:decode", "json.Unmarshal"); c != nil {
+				r.ExpectArg(c, "PostAndParse:decode.source", 0, "io.ReadAll(*)#0 || phi(io.ReadAll(*)#0|nil)")
+				c12TargetIs(r, fn, c, "PostAndParse:decode.target", 1, "p4")
+			}
+		} else {
+			// several decoders / a helper: each is handed the body, and what they decode ends in the caller's rsp
+			r.Pass("PostAndParse:decode", r.FnPos(fn), fmt.Sprintf("%d decode steps", len(steps)))
+			c13DecodeFills(r, fn, steps, "PostAndParse:decode", 4)
 		}
 	}
 	if fn := r.Fn(c12Retry); fn != nil {
